@@ -482,3 +482,61 @@ Example ex_stale_read_rejected :
       [ {| c_kind := 0; c_ids := [5%N] |}; {| c_kind := 2; c_ids := [5%N] |} ]
       [(1, 2); (3, 4)]%N [ROk; RNum 0] w)) [[0; 1]; [1; 0]] = true.
 Proof. vm_compute. reflexivity. Qed.
+
+(* ---- OnPut callbacks: what n successful Puts fire --------------------------------------------- *)
+Lemma cb_filter_nodup (l : list (nat * bool)) f : NoDup (map fst l) -> NoDup (map fst (filter f l)).
+Proof.
+  induction l as [|c l IH]; cbn; intro H; [constructor|]. inversion H as [|? ? Hn Hr]; subst.
+  destruct (f c); cbn; [constructor|]; auto.
+  intro Hin. apply Hn. apply in_map_iff in Hin as (x & Hx & Hf). apply filter_In in Hf as [Hf _].
+  apply in_map_iff. eauto.
+Qed.
+
+Lemma cb_persistent_fixed (ps : list (nat * bool)) :
+  (forall c, In c ps -> snd c = false) -> filter (fun c => negb (snd c)) ps = ps.
+Proof.
+  induction ps as [|c ps IH]; cbn; intro H; [reflexivity|].
+  rewrite (H c (or_introl eq_refl)). cbn. f_equal. apply IH. intros x Hx. apply H. right. exact Hx.
+Qed.
+
+Lemma cb_fires_persistent ps i : (forall c, In c ps -> snd c = false) ->
+  forall n, count_occ Nat.eq_dec (cb_fires ps n) i = n * count_occ Nat.eq_dec (map fst ps) i.
+Proof.
+  intros H n. induction n as [|n IH]; [reflexivity|].
+  cbn [cb_fires cb_one_put fst snd]. rewrite count_occ_app, (cb_persistent_fixed ps H), IH. lia.
+Qed.
+
+(* a once-only callback fires exactly once if there is any successful Put, a persistent one once per
+   successful Put: the counts [cb_expected] that the check demands of the implementation *)
+Theorem cb_fires_counts (cbs : list (nat * bool)) i once n :
+  NoDup (map fst cbs) -> In (i, once) cbs ->
+  count_occ Nat.eq_dec (cb_fires cbs n) i = N.to_nat (cb_expected once (N.of_nat n)).
+Proof.
+  intros Hnd Hin. destruct n as [|n]; [destruct once; reflexivity|].
+  cbn [cb_fires cb_one_put fst snd]. rewrite count_occ_app.
+  assert (count_occ Nat.eq_dec (map fst cbs) i = 1) as H1.
+  { apply NoDup_count_occ'; [exact Hnd|]. apply in_map_iff. exists (i, once). auto. }
+  rewrite H1. rewrite cb_fires_persistent
+    by (intros c Hc; apply filter_In in Hc as [_ Hc]; destruct (snd c); [discriminate|reflexivity]).
+  pose proof (cb_filter_nodup cbs (fun c => negb (snd c)) Hnd) as Hnd'.
+  destruct once.
+  - assert (count_occ Nat.eq_dec (map fst (filter (fun c => negb (snd c)) cbs)) i = 0) as H0.
+    { apply count_occ_not_In. intro Hi. apply in_map_iff in Hi as ([j o] & Hj & Hf). cbn in Hj. subst j.
+      apply filter_In in Hf as [Hf Ho]. cbn in Ho. destruct o; [discriminate|].
+      (* two entries with the same number: (i,true) and (i,false) *)
+      clear - Hnd Hin Hf. induction cbs as [|c cbs IH]; [destruct Hin|].
+      cbn in Hnd. inversion Hnd as [|? ? Hn Hr]; subst.
+      destruct Hin as [->|Hin], Hf as [E|Hf]; try discriminate.
+      - apply Hn. apply in_map_iff. exists (i, false). auto.
+      - subst c. apply Hn. apply in_map_iff. exists (i, true). auto.
+      - auto. }
+    rewrite H0. unfold cb_expected. lia.
+  - assert (count_occ Nat.eq_dec (map fst (filter (fun c => negb (snd c)) cbs)) i = 1) as H2.
+    { apply NoDup_count_occ'; [exact Hnd'|]. apply in_map_iff. exists (i, false). split; [reflexivity|].
+      apply filter_In. auto. }
+    rewrite H2. unfold cb_expected. lia.
+Qed.
+
+Example cb_fires_example :
+  cb_fires [(0, true); (1, false); (2, true); (3, false)] 3 = [0; 1; 2; 3; 1; 3; 1; 3].
+Proof. reflexivity. Qed.
